@@ -23,7 +23,7 @@ TRACE = ("Trace_C16", "Trace_C16.cfg")
 REQUIRED = ["edit-none", "edit-EditData", "edit-AddTimeStep", "edit-EditGlobalAttr", "edit-AddDataVar", "edit-EditGeomValue",
             "edit-ChangeGeomDtype", "edit-ReshapeSameBytes", "edit-RenameGeom", "edit-AttrAdd", "edit-AttrChange",
             "edit-AttrRemove", "edit-ChangeConvention", "route-inproc", "route-copy", "route-reopen", "route-runtime",
-            "route-subproc1", "route-subproc2", "route-fortran", "route-setcoords", "edit-TransposeValues", "cf1d", "cf2d", "shoc_simple", "shoc_standard", "arakawa", "ugrid"]
+            "route-subproc1", "route-subproc2", "route-fortran", "route-setcoords", "route-inplace", "edit-TransposeValues", "cf1d", "cf2d", "shoc_simple", "shoc_standard", "arakawa", "ugrid"]
 RULE = ("one case = one base dataset (every convention) and its variants: the same dataset obtained by five routes (built in "
         "process, deep copy, saved and reopened, attribute strings built at run time, fresh interpreters with two other hash "
         "seeds), four edits of non-geometry content and every kind of single geometry edit (one value, dtype, shape with the "
@@ -162,6 +162,9 @@ def cases(tier: str, seed: int) -> list[dict]:
             ev.append({"a": "Key", "edit": edits_for(w)[5], "route": "copy"})      # an edited geometry twice: same key
             ev.append({"a": "Key", "edit": edits_for(w)[0], "route": "fortran"})
             ev.append({"a": "Key", "edit": edits_for(w)[0], "route": "setcoords"})
+            for ed in edits_for(w):      # the dataset is asked for its key, edited in place, and asked again
+                if ed["kind"] in ("none", "EditData", "EditGeomValue", "AttrAdd", "AttrChange", "AttrRemove"):
+                    ev.append({"a": "Key", "edit": ed, "route": "inplace"})
             bnd = [e for e in edits_for(w) if e["kind"] == "EditGeomValue" and e["var"] != edit_target(w)]
             for e in bnd:      # a bounds value edited, bounds held as data variables / as coordinates
                 ev.append({"a": "Key", "edit": e, "route": "setcoords"})
@@ -284,7 +287,7 @@ def via_route(w, ds, route, work):
     return ds
 
 
-def key_of(w, ds, ed):
+def key_of(w, ds, ed, bound=False):
     from emsarray.operations.cache import make_cache_key
     if ed["kind"] == "ChangeConvention":
         base_cls = type(W.bind(w, ds.copy()))
@@ -292,17 +295,52 @@ def key_of(w, ds, ed):
         kw = {"coordinate_names": W.arakawa_coord_names(w)} if w["conv"] == "arakawa" else {}
         conv = Other(ds, **kw)
         conv.bind()
+    elif bound:
+        conv = ds.ems
     else:
         conv = W.bind(w, ds)
     rec = Recorder()
     key = make_cache_key(ds, hash=rec)
+    key_default = make_cache_key(ds)        # the call users make: default hash object
     import emsarray
-    return {"payloads": rec.payloads, "key": key}, {"module": list(type(conv).__module__.encode()),
+    return {"payloads": rec.payloads, "key": key, "key_default": key_default}, {"module": list(type(conv).__module__.encode()),
                                                      "classb": list(type(conv).__name__.encode()),
                                                      "version": list(emsarray.__version__.encode())}, type(conv).__name__
 
 
+def apply_edit_inplace(w, ds, ed):
+    """the edit made on the SAME dataset object (which already has its accessor and has been asked for its key)"""
+    k = ed["kind"]
+    var = ed["var"]
+    if k == "EditGeomValue":
+        da = ds[var]
+        a = numpy.asarray(da.values).copy()
+        a.flat[ed["pos"] - 1] = ed["value"] * SCALE
+        if var in ds.coords:
+            ds.coords[var] = (da.dims, a, dict(da.attrs))
+        else:
+            ds[var] = (da.dims, a, dict(da.attrs))
+    elif k in ("AttrAdd", "AttrChange"):
+        ds[var].attrs[ed["key"]] = ed["value"]
+    elif k == "AttrRemove":
+        del ds[var].attrs[ed["key"]]
+    elif k == "EditData":
+        a = ds["temp"].values.copy(); a.flat[0] = 12345.0
+        ds["temp"] = (ds["temp"].dims, a, ds["temp"].attrs)
+    elif k != "none":
+        raise ValueError("no in-place form of " + k)
+    return ds
+
+
 def variant(w, ed, route, work):
+    if route == "inplace":
+        from emsarray.operations.cache import make_cache_key
+        ds = build_base(w)
+        W.bind(w, ds)
+        make_cache_key(ds)                   # asked once before the edit
+        ds = apply_edit_inplace(w, ds, ed)
+        obs, trailer, cname = key_of(w, ds, ed, bound=True)
+        return obs, trailer, inputs_of(w, ds), cname
     ds = apply_edit(w, build_base(w), ed)
     if ed["kind"] == "RenameGeom":
         w = dict(w)
